@@ -210,6 +210,8 @@ def write_evidence(result, program, seed, n_new, listed):
             rules_run=result.rules_run,
             floors=result.floors,
             counters=result.counters,
+            functions_analysed=sorted({i['where'] for i in insts}),
+            paths_enumerated=result.counters.get('paths', 0),
             units=program.summary(),
             unreviewed_sites=result.unreviewed[:50],
             known_findings_present=[f.key for f in listed],
